@@ -1153,16 +1153,23 @@ def rewrites(T, data):
         if kind == 'bits':
             pad, body = c[0], c[1:]
             h = len(body) // 2
-            segs = ident('U', 3, False) + length_min(1 + h) + b'\x00' + body[:h] + \
-                ident('U', 3, False) + length_min(1 + len(body) - h) + bytes([pad]) + body[h:]
-            yield ('segment-bits', n.depth, tagging,
-                   rebuild(top, data, {id(n): ident(n.cls, n.num, True) + length_min(len(segs)) + segs}))
+            # two segments, and the whole string as the single segment of a constructed encoding
+            for parts in ([(0, body[:h]), (pad, body[h:])], [(pad, body)]):
+                segs = b''.join(ident('U', 3, False) + length_min(1 + len(b)) + bytes([p]) + b for p, b in parts)
+                yield ('segment-bits', n.depth, tagging,
+                       rebuild(top, data, {id(n): ident(n.cls, n.num, True) + length_min(len(segs)) + segs}))
         elif kind in ('octs', 'char', 'useful'):
             h = len(c) // 2
-            segs = ident('U', 4, False) + length_min(h) + c[:h] + \
-                ident('U', 4, False) + length_min(len(c) - h) + c[h:]
-            yield ('segment-' + kind, n.depth, tagging,
-                   rebuild(top, data, {id(n): ident(n.cls, n.num, True) + length_min(len(segs)) + segs}))
+            # two segments, one segment, three segments; an empty string also as a constructed encoding without any
+            # segment (X.690 8.7.3.2: "zero, one or more" - the form is not taken for BIT STRING, where the library
+            # and a reading of 8.6.4 refuse it)
+            shapes = [[c[:h], c[h:]], [c], [c[:1], c[1:h + 1], c[h + 1:]]]
+            if not c:
+                shapes.append([])
+            for parts in shapes:
+                segs = b''.join(ident('U', 4, False) + length_min(len(b)) + b for b in parts)
+                yield ('segment-' + kind, n.depth, tagging,
+                       rebuild(top, data, {id(n): ident(n.cls, n.num, True) + length_min(len(segs)) + segs}))
         elif kind == 'bool' and c == b'\xff':
             for alt in (b'\x01', b'\x7f', b'\xfe'):
                 yield ('bool', n.depth, tagging,
